@@ -101,6 +101,8 @@ def apply_model(m, sym):
         m.peer_close()
     elif sym == 'tSMALL':
         m.advance(1.0)
+    elif sym == 'tMID':
+        m.advance(6.0)
     elif sym == 'tEXP':
         m.advance(11.0)
     else:
@@ -195,7 +197,7 @@ DEEP_DEPTH = {'quick': 2, 'thorough': 4}
 
 
 def plan(tier, seed):
-    specs = []
+    specs = [{'name': 'timing'}]
     for role in ('acceptor', 'requestor'):
         for prefix in DEEP[role]:
             specs.append({'name': 'enum', 'parts': [(role, prefix)],
@@ -221,10 +223,40 @@ def run_shard(spec, tier, seed):
                 run_history(res, {'role': role, 'history': hist})
         res.notes['exhaustive_to_depth'] = ['%s%s: %d' % (role[0], '/'.join(prefix), spec['depth'])
                                             for role, prefix in spec['parts']][:40]
+    elif spec['name'] == 'timing':
+        for case in timing_histories():
+            run_history(res, case)
     else:
         for i in range(spec['lo'], spec['hi']):
             run_history(res, random_walk(seed, i))
     return res
+
+
+def timing_histories():
+    """ARTIM is armed once and runs for 10 s whatever happens meanwhile: elapsed-time
+    patterns (6 s + 6 s with and without traffic in between, many small steps, the exact
+    boundary) in every way of awaiting the first PDU or the peer's close."""
+    waiting = [('acceptor', []), ('acceptor', ['pRQ', 'uRJ']), ('acceptor', ['pRQ', 'uAC', 'uABORT']),
+               ('acceptor', ['pRQ', 'uAC', 'pRELRQ', 'uRELRP']), ('acceptor', ['pRQ', 'uAC', 'pUNK']),
+               ('acceptor', ['pRQ', 'pRQ']), ('requestor', ['pAC', 'uABORT']),
+               ('requestor', ['pAC', 'pRELRQ', 'uRELRP']), ('requestor', ['pAC', 'pAC']),
+               ('requestor', ['pUNK'])]
+    traffic = ['pDATA', 'pRQ', 'pRELRP', 'pUNK', 'pPART', 'pAC']
+    for role, prefix in waiting:
+        in_sta2 = not prefix and role == 'acceptor'
+        tails = [['tMID', 'tMID'], ['tMID', 'tSMALL', 'tSMALL', 'tSMALL', 'tSMALL', 'tSMALL'],
+                 ['tSMALL'] * 11, ['tMID', 'tSMALL', 'tSMALL', 'tSMALL', 'tSMALL', 'pCLOSE']]
+        if not in_sta2:
+            for x in traffic:
+                tails.append(['tMID', x, 'tMID'])
+                tails.append(['tMID', x, 'tSMALL', x, 'tMID'])
+                tails.append(['tSMALL', x, 'tMID', x, 'tSMALL', 'tSMALL', 'tSMALL', 'tSMALL', 'tSMALL'])
+        for tail in tails:
+            yield {'role': role, 'history': prefix + tail, 'timing': True}
+    # and where ARTIM must NOT run: time passing in the other states changes nothing
+    for role, prefix in [('acceptor', ['pRQ']), ('acceptor', ['pRQ', 'uAC']), ('requestor', []),
+                         ('requestor', ['pAC', 'uRELRQ']), ('acceptor', ['pRQ', 'uAC', 'pRELRQ'])]:
+        yield {'role': role, 'history': prefix + ['tMID', 'tMID', 'tEXP', 'tSMALL'], 'timing': True}
 
 
 def replay(case):
@@ -251,7 +283,7 @@ def random_walk(seed, index):
         if dead(m):
             hist.append('tEXP')
             break
-        syms = alphabet(m)
+        syms = alphabet(m) + ['tMID']
         if calm:
             if m.state == 2 and 'pRQ' in syms and r.random() < 0.9:
                 sym = 'pRQ'
@@ -295,6 +327,8 @@ def build_script(role, hist):
             script.append(('reset',))
         elif sym == 'tSMALL':
             script.append(('time', 1.0))
+        elif sym == 'tMID':
+            script.append(('time', 6.0))
         elif sym == 'tEXP':
             script.append(('time', 11.0))
         else:
